@@ -1116,24 +1116,28 @@ type wres =
 
 type wait_pc =
 | WNew
+| WSubW
 | WSubL
 | WWait
 | WUnsub of wres
+| WUnsubW of wres
 | WDone of wres
 | WPanicked
 
 type run_pc =
 | RIdle
 | RWantR of msg
+| RInner of msg
 | RNotify of msg * bool * nat list
+| RWantW
 | RUpd
 
 val upd_cap : nat
 
 type state = { head : (nat -> n); pend : msg list; updq : msg list;
                best : nat option; readers : nat; writer : agent option;
-               wl : (n * nat) list; next_id : n; rpc : run_pc;
-               wpc : (nat -> wait_pc); wid : (nat -> n);
+               wreq : agent option; wl : (n * nat) list; next_id : n;
+               rpc : run_pc; wpc : (nat -> wait_pc); wid : (nat -> n);
                wch : (nat -> msg option); wgot : (nat -> msg option);
                woff : (nat -> msg list); log : msg list }
 
@@ -1148,6 +1152,8 @@ val set_best : state -> nat option -> state
 val set_readers : state -> nat -> state
 
 val set_writer : state -> agent option -> state
+
+val set_wreq : state -> agent option -> state
 
 val set_wl : state -> (n * nat) list -> state
 
@@ -1176,17 +1182,25 @@ type label =
 | LPublish of nat
 | LTake
 | LRLock of nat list
+| LRInner of nat list
 | LSend
 | LRUnlock
 | LTick
+| LUpdLock
 | LUpdDone of (bool * z) list
+| LSubWant of nat
 | LSubLock of nat
 | LSubBody of nat
 | LRecv of nat
 | LLeave of nat * wres
+| LUnsubWant of nat
 | LUnsub of nat
 
 val lock_free : state -> bool
+
+val no_writer : state -> bool
+
+val is_wreq : state -> agent -> bool
 
 val is_writer : state -> agent -> bool
 
@@ -1200,7 +1214,8 @@ val newer : msg option -> msg -> msg
 
 val mk_conns : nat -> (nat -> n) -> (bool * z) list -> conn list
 
-val step0 : strategy -> nat -> (nat -> n) -> state -> label -> state option
+val step0 :
+  strategy -> bool -> nat -> (nat -> n) -> state -> label -> state option
 
 val init_state : (nat -> n) -> nat option -> state
 
@@ -1296,16 +1311,30 @@ val run_ops1 :
 
 val try_step : strategy -> nat -> (nat -> n) -> state -> label -> state
 
-val deliver : strategy -> nat -> (nat -> n) -> state -> nat -> n -> state
+val steps : strategy -> nat -> (nat -> n) -> state -> label list -> state
+
+val deliver :
+  strategy -> nat -> (nat -> n) -> nat -> state -> nat -> n -> state
+
+val subscribe_steps : nat -> label list
+
+val return_steps : nat -> wres -> label list
+
+val verdict : state -> nat -> sx
 
 val wait_scenario :
   strategy -> nat -> (nat -> n) -> state -> (nat * n) list -> wres -> sx
+
+val wait2_scenario :
+  strategy -> nat -> (nat -> n) -> state -> (nat * n) list -> sx
 
 val nth_tgt : sx list -> nat -> n
 
 val run_walk : sx -> sx
 
 val heads_of : sx list -> (nat * n) list
+
+val run_wait2 : sx -> sx
 
 val run_wait : sx -> sx
 
@@ -1627,6 +1656,7 @@ type label0 =
 | LTick0 of nat
 | LSilence of nat
 | LReconnectEnter of nat
+| LReconnectFail of nat
 | LReconnectDone of nat
 
 val step1 : nat -> (nat -> n) -> state0 -> label0 -> state0 option
@@ -2316,6 +2346,29 @@ val cached_hash_of : imm res list -> nat -> bytes res
 
 val cached_hash : (bytes -> bytes) -> node list -> nat -> bytes res
 
+type 's tvar = { tv_hash : bytes; tv_src : 's option; tv_val : tx option }
+
+val tvar_zero : 'a1 tvar
+
+val tx_assign_res :
+  bool -> bytes res -> tx res -> 'a1 -> 'a1 tvar -> 'a1 tvar * bool
+
+val tx_obs_hash : 'a1 tvar -> bytes
+
+val tx_obs_source : 'a1 tvar -> 'a1 option
+
+type mvar = { mv_hash : bytes; mv_val : msg1 option }
+
+val mvar_zero : mvar
+
+val set_hash : bytes -> msg1 -> msg1
+
+val msg_assign_res :
+  bool -> bytes res -> (((info * (bool * state_init)
+  option) * bool) * (bits * cell list)) res -> mvar -> mvar * bool
+
+val msg_obs_hash : (bytes -> bytes) -> bool -> mvar -> bytes res
+
 val cell_eqb : cell -> cell -> bool
 
 val table_lookup0 : cell res list -> bits -> cell -> bool
@@ -2340,6 +2393,32 @@ val run_msg0 : sx -> sx
 val parses_back : bytes -> bytes -> bool
 
 val run_tx : sx -> sx
+
+type tsrc = { ts_lib : bool; ts_hr : bytes res; ts_dr : tx res; ts_boc : sx }
+
+type msrc = { ms_lib : bool; ms_hr : bytes res;
+              ms_pr : (((info * (bool * state_init)
+                      option) * bool) * (bits * cell list)) res }
+
+val with_source :
+  sx -> (oracle -> node list -> nat -> cell -> imm res list -> 'a1) -> 'a1
+  option
+
+val tsrc_of : sx -> tsrc option
+
+val msrc_of : sx -> msrc option
+
+val all_some : 'a1 option list -> 'a1 list option
+
+val ok_sx : bool -> sx
+
+val htx_go : tsrc list -> sx list -> nat tvar -> sx list
+
+val hmsg_go : msrc list -> sx list -> mvar -> sx list
+
+val run_htx : sx -> sx
+
+val run_hmsg : sx -> sx
 
 val iter0 : nat -> ('a1 -> 'a1) -> 'a1 -> 'a1
 
@@ -3836,7 +3915,7 @@ val run_body : sx -> sx
 
 val table_verify : sx list -> bits -> bytes -> bits -> bool
 
-val verdict : sx list -> bits -> (bits * bytes) res -> sx
+val verdict0 : sx list -> bits -> (bits * bytes) res -> sx
 
 val run_verify : sx -> sx
 
